@@ -51,19 +51,23 @@ def run_bin(exe, only=(), timeout=300):
         vlib.rm(d)
 
 
-def run_unit(exe, case_ids, timeout=600):
+def run_unit(exe, case_ids, timeout=90):
     """Runs one unit over all its cases. A crash (the real code dying is an observation, not an infrastructure error)
     is attributed to the case that was running (CaseBegin marker), confirmed by re-running the same prefix of cases,
     and the remaining cases are run in a new process. Returns (records, crashes, timed_out) with
     crashes = [(case_id, prefix_ids, rc, repeated)]."""
-    recs_all, crashes, todo, first = [], [], list(case_ids), True
+    recs_all, crashes, todo, first, hangs = [], [], list(case_ids), True, 0
     while todo:
         rc, recs = run_bin(exe, only=[] if first else todo, timeout=timeout)
         recs_all += recs
         if rc == 0:
             break
         if rc == -9:
-            return recs_all, crashes, True
+            # a hang of the real code (corrupted queue: the caller blocks for ever / the backend spins) is an observation like a
+            # crash; more than three in one unit is treated as an overloaded machine
+            hangs += 1
+            if hangs > 3:
+                return recs_all, crashes, True
         begun = [r["case"] for r in recs if r.get("e") == "CaseBegin" and r["case"] in todo]
         x = begun[-1] if begun else todo[0]
         prefix = todo[:todo.index(x) + 1]
@@ -233,6 +237,9 @@ def prepare(ck, use_cache=False):
     # 5. up to cap + 1 variable-length C strings in one statement
     r_w = tlc_codec(ck, "MC_wide", c, pool="cstr", maxstmts=2, maxargs=cap + 1, maxpending=1, export=True, workers=1)
     b_w = maximal(vlib.behaviours(r_w))
+    # 5a. more std::string / string_view arguments than the size cache has inline slots: they must not touch the cache
+    r_ws = tlc_codec(ck, "MC_wide_str", c, pool="strs", maxstmts=1, maxargs=cap + 2, maxpending=1, export=True, workers=1)
+    b_ws = [b for b in maximal(vlib.behaviours(r_ws)) if len(calls(b)) == 1 and len(calls(b)[0]["args"]) > cap]
     # 5b. scalar-only statements; composite-with-cache-users followed by another cache user, for every composite kind
     r_sc = tlc_codec(ck, "MC_scalars", c, pool="scalars", maxstmts=1, maxargs=3, export=True, workers=1)
     b_sc = maximal(vlib.behaviours(r_sc))
@@ -257,6 +264,10 @@ def prepare(ck, use_cache=False):
     vlib.log(f"[codec] TLC done {time.time() - t0:.1f}s: depth2={len(b_d2)} pairs={len(b_p)} wide={len(b_w)} depth3={len(b_d3)} sim={len(b_s)}")
 
     chosen = [("model-counterexample", h, 0, None, None) for h in CEX] + select(rng, quick, cap, b_d2, b_p, b_w, b_d3, b_s, b_sc, b_al)
+    if not b_ws:
+        raise vlib.Infra("no statement with more std::string arguments than the size cache has slots was exported")
+    rng.shuffle(b_ws)
+    chosen += [("widestr", b + [{"op": "poll"}] if b[-1].get("op") != "poll" else b, 0, None, None) for b in b_ws[:3 if quick else 12]]
     cases, dropped = [], 0
     for origin, beh, fresh, big, opts in chosen:
         try:
